@@ -3,9 +3,9 @@
    svd_interface returns has orthonormal columns, I_i x min(rank_i, I_i)") is DISCHARGED for method = 'truncated_svd' from LAPACK's
    contract alone (tl.svd(matrix, full_matrices=f) returns orthonormal factors of the documented shapes reproducing the matrix):
    every call goes through C05's svd_interface model (n_eigenvecs clamping, full_matrices choice, slicing, svd_flip). *)
-From Coq Require Import List Arith Bool Lia Reals.
+From Coq Require Import List Arith Bool Lia Reals RealField.
 From TLV Require Import Base.PyList Base.Ops Base.Tensor Base.RSum Base.BigSum Model.Svd Proofs.SvdProofsAux Proofs.SvdProofs Proofs.SvdInterfaceProofs
-  Proofs.SvdWitness Proofs.SvdSymeigFull Proofs.SvdInterfaceAll Proofs.SvdSymeigBest Model.Structure Model.StructureHooi Proofs.StructureConj Proofs.StructureConjR Proofs.StructureHooiConj.
+  Proofs.SvdWitness Proofs.SvdSymeigFull Proofs.SvdInterfaceAll Proofs.SvdSymeigBest Model.Structure Model.StructureHooi Proofs.StructureConj Proofs.StructureConjR Proofs.StructureHooiConj Proofs.StructureTTConj.
 Import ListNotations.
 Local Open Scope nat_scope.
 
@@ -165,3 +165,44 @@ Proof.
   unfold symeig_call_ok. cbv zeta. change (1 <? 1) with false. cbv iota.
   split; [exact H1|]. split; [exact H2|]. split; [exact H3|]. split; [exact H5|]. split; [exact H7 | exact H8].
 Qed.
+
+(* ------------------------------------------------------------------ TT-SVD / TR-SVD under LAPACK's contract (`_partial`: see below) *)
+(* The loop theorems of Proofs/StructureTTConj.v quantify their SVD contract over EVERY matrix; LAPACK's contract on every matrix is the
+   existence of a singular value decomposition -- a classical result that is in no installed library, hence a NAMED HYPOTHESIS here and the
+   theorems are `_partial` (brief, hard rule 4).  tab: the unfolding as a list of rows. *)
+Definition tab (n m : nat) (M : nat -> nat -> R) : list (list R) := map (fun i => map (fun j => M i j) (seq 0 m)) (seq 0 n).
+Section BridgeTT.
+  Variable orc : list (list R) -> bool -> triple R.
+  Variables (flip ub : bool).
+  Hypothesis lapack_svd_exists : forall d1 d2 (Ml : list (list R)) f, svd_contract d1 d2 (mget Rops Ml) f (orc Ml f).
+  Variable svdSV : nat -> nat -> (nat -> nat -> R) -> nat -> nat -> nat -> R.
+  Definition tsvdU (n_row n_col : nat) (M : nat -> nat -> R) (r : nat) : nat -> nat -> R :=
+    fun i j => svd_interface_U orc flip ub n_row n_col r (tab n_row n_col M) i j.
+  Lemma tsvdU_contract n_row n_col M r : r <= Nat.min n_row n_col ->
+    unitary_cols R 0%R 1%R Rplus Rmult (fun x => x) n_row r (tsvdU n_row n_col M r).
+  Proof.
+    intros Hr. destruct n_row as [|n'].
+    - intros a b Ha. lia.
+    - replace r with (Nat.min r (S n')) at 1 by lia.
+      apply (svd_interface_U_unitary orc flip ub (S n') n_col r (tab (S n') n_col M)); [lia | intros f; apply lapack_svd_exists].
+  Qed.
+  Theorem tensor_train_lapack_partial shape spec c X cores :
+    tensor_train_K R tsvdU svdSV shape spec c X = Ok cores ->
+    tensor_train shape spec c = Ok (map (cshape R) cores) /\
+    (forall k, S k < length cores -> left_unitary R 0%R 1%R Rplus Rmult (fun x => x) (nth k cores (mkCore R 0 0 0 (fun _ _ _ => 0%R)))).
+  Proof.
+    intros H.
+    destruct (tensor_train_K_canonical R 0%R 1%R Rplus Rmult Rminus Ropp RTheory (fun x => x) tsvdU svdSV tsvdU_contract shape spec c X cores H) as (H1 & _ & H3).
+    split; assumption.
+  Qed.
+  Theorem tensor_ring_lapack_partial shape rank X cores :
+    tr_cores_K R tsvdU svdSV shape rank X = Ok cores ->
+    tr_cores shape rank = Ok (map (cshape R) cores) /\
+    first_core_unitary R 0%R 1%R Rplus Rmult (fun x => x) (hd (mkCore R 0 0 0 (fun _ _ _ => 0%R)) cores) /\
+    (forall k, 1 <= k -> S k < length cores -> left_unitary R 0%R 1%R Rplus Rmult (fun x => x) (nth k cores (mkCore R 0 0 0 (fun _ _ _ => 0%R)))).
+  Proof.
+    intros H.
+    destruct (tr_cores_K_canonical R 0%R 1%R Rplus Rmult Rminus Ropp RTheory (fun x => x) tsvdU svdSV tsvdU_contract shape rank X cores H) as (H1 & _ & _ & _ & H5 & H6).
+    repeat split; assumption.
+  Qed.
+End BridgeTT.
